@@ -4,14 +4,16 @@ import SaModel.Trace.FromSamples
 C06, closure: the exclusions of the property as explicit decidable predicates on (data type of the traced field, sample).
 
 Local predicates (one position: the data type the schema gives the position, the serde call the sample makes there):
-  `nullAtEnum`         DOCUMENTED: a null (`None`, `()`, a missing field / tuple position) at an enum-typed (Union) position
+  `nullAtEnum`         DOCUMENTED: a null (`None`, `()`, a unit struct, a missing field / tuple position) at an enum-typed (Union) position
   `dateLookalike`      DOCUMENTED: a string at a position traced as Date32 / Time64 / Timestamp under `guess_dates` (the
                        tracer only matches the pattern) that the builder's parser refuses
   `u64AboveI64`        DOCUMENTED: a `u64` above `i64::MAX` at a position coerced to Int64 under `coerce_numbers`
   `dataLessNewtype`    KNOWN FINDING C06-data-less-newtype-variant-as-string: a newtype variant at a position traced as a
                        dictionary of strings (`enums_without_data_as_strings`, payload only ever null)
-  `unitStructAtValue`  FINDING (new, `C06-unit-struct-into-value`): a unit struct at a position that is not of type Null —
-                       the tracer treats `serialize_unit_struct` like `serialize_unit` (null), only `NullBuilder` accepts it
+(The former exclusion `unitStructAtValue` — finding `C06-unit-struct-into-value`: a unit struct at a position that is not
+of type Null; the tracer treats `serialize_unit_struct` like `serialize_unit`, only `NullBuilder` accepted it — is gone
+with repo fix ae2fc46: every builder now treats a unit struct as it treats `()`, so a unit struct counts as a null,
+also in `nullAtEnum`.)
 `hits p dt x` walks the sample along the documented mapping (`Spec.interpDT`: records by name, tuples by position, maps by
 key, variants by index; a field / position the sample lacks counts as a null there) and says whether `p` holds at some
 position.  `sampleOK` is the well-formedness of a sample as a serde value (integers within their width, chars are
@@ -45,7 +47,7 @@ def isInt64DT : DataType → Bool
 
 /-- DOCUMENTED exclusion 1: null for an enum-typed position -/
 def nullAtEnum (dt : DataType) : SVal → Bool
-  | .none | .unit => isUnionDT dt
+  | .none | .unit | .unitStruct _ => isUnionDT dt
   | _ => false
 
 /-- DOCUMENTED exclusion 2: a string that only looks like a date / time (the tracer matched the pattern, the parser of
@@ -64,14 +66,9 @@ def dataLessNewtype (dt : DataType) : SVal → Bool
   | .newtypeVariant _ _ _ _ => isDictDT dt
   | _ => false
 
-/-- FINDING: a unit struct where the traced type is not Null -/
-def unitStructAtValue (dt : DataType) : SVal → Bool
-  | .unitStruct _ => !isNullDT dt
-  | _ => false
-
-/-- any of the five -/
+/-- any of the four -/
 def exclAny (ext : Ext) (dt : DataType) (x : SVal) : Bool :=
-  nullAtEnum dt x || dateLookalike ext dt x || u64AboveI64 dt x || dataLessNewtype dt x || unitStructAtValue dt x
+  nullAtEnum dt x || dateLookalike ext dt x || u64AboveI64 dt x || dataLessNewtype dt x
 
 /-! ### walking a sample along the mapping -/
 
